@@ -39,8 +39,20 @@ Qed.
 
 (* as found: a notification's MAC is the table's slice *)
 Theorem outputs_refuted :
-  exists ops hp, crun out_copies ops hp <> hp.
+  exists ops hp, crun out_copies_as_found ops hp <> hp.
 Proof. exists [CGet OP_notification_mac 0; CWrite 0 [255;255;255;255;255;254]], [[2;0;0;0;0;1]]. vm_compute. discriminate. Qed.
 
-Example outputs_partial_nonvacuous : uses_only out_copies [CGet OP_dns_entry 0; CWrite 0 [1;2;3]] = true.
+Example outputs_partial_nonvacuous : uses_only out_copies_as_found [CGet OP_dns_entry 0; CWrite 0 [1;2;3]] = true.
+Proof. reflexivity. Qed.
+
+Lemma out_copies_all : forall k, out_copies k = true.
+Proof. destruct k; reflexivity. Qed.
+
+(* the repaired code: whatever the caller obtains and overwrites, the retained storage is unchanged *)
+Theorem outputs_do_not_alias_state ops hp : crun out_copies ops hp = hp.
+Proof. apply outputs_do_not_alias. apply out_copies_all. Qed.
+
+Example outputs_example :
+  crun out_copies [CGet OP_notification_mac 0; CWrite 0 [255;255;255;255;255;254]; CGet OP_findrouter 1; CWrite 1 []]
+       [[2;0;0;0;0;1]; [254;128]] = [[2;0;0;0;0;1]; [254;128]].
 Proof. reflexivity. Qed.
